@@ -125,6 +125,9 @@ FIXED = [
      "TAL handler enabled (allowpythonpath off) and a template whose path expressions climb through the loaders it is given "
      "('root/../getchildrennames', 'root/../other/macros/m', 'dir/../../SIBLING/...'): the directory above the document root is "
      "listed into the page, templates from there are compiled and used"),
+    ("C06", "C06/entries-differ:http:target", "268ac97",
+     "a link-file or gophermap entry for the top of the site (Path=/ on this host): Gopher, Gemini and Spartan point at the root "
+     "menu, the HTTP and WAP pages carry HREF="", which resolves to the page the link is on"),
     ("C12", "C12/directory-lost:vanishes-after-stat+linkfile-gophermap:error-reply", "10d7f11",
      "a directory presented through a gophermap, and a local link of that map whose target is removed between the handler's "
      "exists() and its description (populatefromvfs): FileNotFoundError escapes prepare(), the whole menu is answered with an error"),
